@@ -486,6 +486,16 @@ pub fn pair_sweep(model: &QfModel, lefts: &[St], rights: &[St], laws: bool, thre
                                     st.ok += 1;
                                     if !fits {
                                         push(&mut vs, "C13", format!("{} union Ok beyond capacity", cfg.label), format!("union succeeded although {} classes exceed capacity {}", uni.count_ones(), cfg.capacity()), union_replay(cfg, a, b, None, "a.union(&b) = Ok beyond capacity"));
+                                        // the same outcome seen from C06 (a filter fed A's stream and then B's stream reports Full) and from C01
+                                        // (whatever was left out is a false negative)
+                                        push(&mut vs, "C06", format!("{} union Ok where both streams do not fit", cfg.label), format!("a.union(&b) returned Ok although the {} classes of both streams exceed capacity {}: a filter fed both streams reports Full", uni.count_ones(), cfg.capacity()), union_replay(cfg, a, b, None, "a.union(&b) = Ok, fresh fed stream_a ++ stream_b = Full"));
+                                        let got = obs(cfg, &u);
+                                        for (i, _) in cfg.universe.iter().enumerate() {
+                                            let c = model.classes.class_of[i];
+                                            if (uni >> c) & 1 == 1 && !got.2[i] {
+                                                push(&mut vs, "C01", format!("{} union false-negative", cfg.label), format!("after a union that returned Ok element {:#x} (present in an operand) is reported absent", cfg.universe[i]), union_replay(cfg, a, b, None, "a.union(&b) = Ok then query"));
+                                            }
+                                        }
                                         continue;
                                     }
                                     let got = obs(cfg, &u);
